@@ -880,9 +880,17 @@ def sub_records(res):
 # 2D wall shapes in (u, v): u horizontal, v up
 def gen_wall_shape(rng):
     kind = rng.choice(['rect', 'rect', 'L', 'L', 'U', 'T', 'gable', 'trapezoid', 'parallelogram',
-                       'convex', 'star', 'notch'])
+                       'convex', 'star', 'notch', 'side-dent', 'side-dent'])
     W, H = rng.uniform(2, 20), rng.uniform(2, 8)
-    if kind == 'rect':
+    if kind == 'side-dent':
+        # a dent in one vertical side that does not reach across: the bounding rectangle is not
+        # inside the face although its bottom and top edges are complete
+        d, h1 = rng.uniform(0.1, 0.45) * W, rng.uniform(0.3, 0.7) * H
+        if rng.random() < 0.5:
+            pts = [(0, 0), (W, 0), (W - d, h1), (W, H), (0, H)]
+        else:
+            pts = [(0, 0), (W, 0), (W, H), (0, H), (d, h1)]
+    elif kind == 'rect':
         pts = [(0, 0), (W, 0), (W, H), (0, H)]
     elif kind == 'L':
         a, b = rng.uniform(0.3, 0.7) * W, rng.uniform(0.3, 0.7) * H
